@@ -95,16 +95,23 @@ def formulaInForce (v : Var) (startOrd : Int) : Option DExpr :=
 
 def vecAdd (a b : Val) : Val := List.zipWith (· + ·) a b
 
+/-- does a person holding flattened role `ρ` match the role digit `r` of an operation
+    (`Population.has_role`)?  `r = 9`: no role filter, everybody matches; `r = 8`: the first
+    top-level role of an entity whose first role has two sub-roles — flattened roles 0 and 1 match
+    (`has_role` of a role with sub-roles is the disjunction over its sub-roles); any other digit:
+    the flattened role `r` itself -/
+def roleMatch (r ρ : Nat) : Bool := decide (r = 9 ∨ ρ = r ∨ (r = 8 ∧ ρ < 2))
+
 /-- sum of `x` over the members of group `g` that hold role `r` (`GroupPopulation.sum(x, role)`);
     it does not depend on the order in which persons are stored -/
 def roleSum (d : Decl) (r : Nat) (x : Val) (g : Nat) : Int :=
-  (((List.range d.mem.length).filter (fun i => d.mem.getD i 0 = g ∧ d.roles.getD i 0 = r)).map
+  (((List.range d.mem.length).filter (fun i => d.mem.getD i 0 = g ∧ roleMatch r (d.roles.getD i 0) = true)).map
     (fun i => x.getD i 0)).foldl (· + ·) 0
 
 /-- the values of `x` at the members of group `g` that hold role `r` (`r = 9`: at every member,
     no role filter), in storage order -/
 def holderVals (d : Decl) (r : Nat) (x : Val) (g : Nat) : List Int :=
-  ((List.range d.mem.length).filter (fun i => d.mem.getD i 0 = g ∧ (r = 9 ∨ d.roles.getD i 0 = r))).map
+  ((List.range d.mem.length).filter (fun i => d.mem.getD i 0 = g ∧ roleMatch r (d.roles.getD i 0) = true)).map
     (fun i => x.getD i 0)
 
 /-- total reductions on integers: the greatest / least element (0 for no element: the ±∞ that
@@ -124,6 +131,10 @@ def listAll (l : List Int) : Int := if l.all (fun a => a ≠ 0) then 1 else 0
     `first_person`, `get_rank`) are deliberately NOT in the language: their result is defined by
     storage order. -/
 def isRoleOp (o : Nat) : Bool := decide (10 ≤ o ∧ o < 80)
+
+/-- projections with a role filter (codes 80–89, `GroupPopulation.project(x, role)`): the group's
+    value for the members that match the role digit, 0 for the others -/
+def isProjOp (o : Nat) : Bool := decide (80 ≤ o ∧ o < 90)
 
 /-- unary operations on vectors -/
 def f1 (d : Decl) (o : Nat) (x : Val) : Val :=
@@ -148,6 +159,9 @@ def f1 (d : Decl) (o : Nat) (x : Val) : Val :=
     (List.range d.nG).map (fun g => listMin (holderVals d (o - 60) x g))
   else if 70 ≤ o ∧ o < 80 then    -- `all(x, role=r)`, 1 for a group without holder
     (List.range d.nG).map (fun g => listAll (holderVals d (o - 70) x g))
+  else if 80 ≤ o ∧ o < 90 then    -- `project(x, role=r)`: a group vector onto the persons holding role r
+    (List.range d.mem.length).map (fun i =>
+      if roleMatch (o - 80) (d.roles.getD i 0) = true then x.getD (d.mem.getD i 0) 0 else 0)
   else if 100 ≤ o then x.map (fun a => a * ((o : Int) - 150))
   else x
 
@@ -200,14 +214,14 @@ def elabRead (d : Decl) (w : Nat) (q : Except String Period) (add : Bool) : Expr
 
 /-- elaboration of a formula expression; `ent` is the entity the sub-expression lives on
     (`op1 1` and the role operations `op1 10..79` turn a person-level operand into a group
-    vector, `op1 2` projects a group-level operand onto persons) -/
+    vector, `op1 2` and `op1 80..89` project a group-level operand onto persons) -/
 def elabExpr (d : Decl) (ent : Nat) (p : Period) : DExpr → Expr Period
   | .const k => .const (List.replicate (d.size ent) k)
   | .var w pt add =>
     match d.vars[w]? with
     | none => .bad
     | some wv => if wv.entity = ent then elabRead d w (applyPT p pt) add else .bad
-  | .op1 o a => .op1 o (elabExpr d (if o = 1 ∨ isRoleOp o = true then 0 else if o = 2 then 1 else ent) p a)
+  | .op1 o a => .op1 o (elabExpr d (if o = 1 ∨ isRoleOp o = true then 0 else if o = 2 ∨ isProjOp o = true then 1 else ent) p a)
   | .op2 o a b => .op2 o (elabExpr d ent p a) (elabExpr d ent p b)
   | .fail id a => .fail id (elabExpr d ent p a)
 
